@@ -121,6 +121,7 @@ def c01(work, tier, seed, replay):
     design, scripts = ft.gen_graph_scripts(work, seed, tier)
     scripts += ft.gen_random_scripts(seed, 200 if tier == "quick" else 4000)
     scripts += ft.gen_dupin_scripts(tier, seed)
+    scripts += ft.gen_tokenauth_other_mechanism_scripts(tier, seed)
     return tunnel_family("C01", work, tier, seed, scripts, design)
 
 
